@@ -472,11 +472,36 @@ def abs_wire(any_, obj, pid):
             # the C03 model decides (Bac.ObjCodec): concrete tags of the request + the class's schema
             ctags = '[' + ';'.join('(mkTag %d %d %d %s)' % (t.tagClass, t.tagNumber, t.tagLVT, nlist(bytes(t.tagData)))
                                    for t in any_.tagList.tagList) + ']'
-            qone = '(codec_one %d %s %s)' % (cid(X), schema_name(X), ctags)
+            # hints: identity of the stored value(s) as the implementation re-encodes them; used by the model only when the
+            # request spells an accepted value non-canonically (see ObjCodec.v)
+            def recoded(vals):
+                tl = P.TagList()
+                for v in vals:
+                    v.encode(tl)
+                return valgen.canon_tags(tl.tagList)
+            sent = valgen.canon_tags(any_.tagList.tagList)
+            hint = -1
+            try:
+                v1 = any_.cast_out(X)
+                if recoded([v1]) != sent:
+                    el = abs_elem(X, v1)
+                    hint = el[2] if el[0] == 'c' else 0
+                    ORACLE['non-canonical'] += 1
+            except Exception:
+                pass
+            qone = '(codec_one %d %s %s (%d))' % (cid(X), schema_name(X), ctags, hint)
             if X is not dt:
                 isarr = issubclass(dt, C.Array)
                 fx = '(Some %d%%N)' % dt.fixed_length if (isarr and dt.fixed_length is not None) else 'None'
-                qmany = '(codec_many %d %s %s %s %s)' % (cid(X), schema_name(X), q_bool(isarr), fx, ctags)
+                hints = []
+                try:
+                    vs = any_.cast_out(dt)
+                    if vs and recoded(vs) != sent:
+                        hints = [(lambda el: el[2] if el[0] == 'c' else 0)(abs_elem(X, v)) for v in vs]
+                        ORACLE['non-canonical'] += 1
+                except Exception:
+                    pass
+                qmany = '(codec_many %d %s %s %s %s [%s])' % (cid(X), schema_name(X), q_bool(isarr), fx, ctags, ';'.join(str(h) for h in hints))
             ORACLE['codec'] += 1
         elif X is not None:
             # class without a schema in gen/Schemas.v: outcome supplied from a stand-alone cast_out call
@@ -493,7 +518,7 @@ def abs_wire(any_, obj, pid):
     return '(mkW [%s] %s %s)' % (';'.join(tags), qone or q_res(one, q_elem), qmany or q_res(many, q_elems))
 
 
-ORACLE = {'codec': 0, 'implementation': 0}
+ORACLE = {'codec': 0, 'implementation': 0, 'non-canonical': 0}
 _SCHEMAS = {}
 
 
